@@ -33,6 +33,13 @@ fn ranges() -> Vec<Range> {
     v
 }
 
+/// scale: intervals around 2^8 and 2^16 polls (exact counts and ranges of three values), run for four intervals
+fn big_ranges() -> Vec<Range> {
+    let mut v = vec![];
+    for n in [255u32, 256, 257, 65535, 65536, 65537, 70000] { v.push(Range { lo: n, hi: n, incl: true }); }
+    for lo in [254u32, 65534, 65535, 65536] { v.push(Range { lo, hi: lo + 2, incl: true }); v.push(Range { lo, hi: lo + 3, incl: false }); }
+    v
+}
 /// events applied before poll i: 1 = disable, 2 = enable, 3 = io_reset
 #[derive(Clone, Debug, Default)]
 struct Plan { choices: Vec<u32>, events: Vec<(u32, u8)>, path: u8 }
@@ -158,6 +165,21 @@ pub fn run(ctx: &Ctx) -> Report {
         // the same configuration reached through set_range / set_exact sequences
         if (ei as u64) < npath_ev { for path in 1..=3u8 { acc.count("configs_via_setters", 1); explore(rs[ri], &evs[ei], path, polls, acc, &format!("h{path}:{ri}:{}", events_str(&evs[ei]))); } }
         acc.sample(k, ctx.seed, 41, || format!("range {:?} events {:?}", rs[ri], evs[ei]));
+    });
+    rep.absorb(r);
+    // scale: big intervals, every choice of the first two samples (and the range minimum afterwards), 4 intervals long; with and without a reset mid-way
+    let big = big_ranges();
+    let r = sweep(ctx, big.len() as u64 * 9 * 2, 1, |k, acc| {
+        let (r, c0, c1, ev) = (big[(k / 18) as usize], (k / 6 % 3) as u32, (k / 2 % 3) as u32, k % 2 == 1);
+        if c0 >= r.size() || c1 >= r.size() { return; }
+        let polls = 4 * r.max() + 20;
+        let events = if ev { vec![(r.max() / 2, 3u8)] } else { vec![] };
+        let what = format!("range {r:?} events {events:?} samples [{c0}, {c1}] over {polls} polls");
+        acc.evals += 1; acc.traces += 1; acc.transitions += polls as u64; acc.count("big_interval_runs", 1);
+        match run_hooked(r, &Plan { choices: vec![c0, c1], events, path: 0 }, polls) {
+            Err(p) => acc.violation(format!("panic:{}", panic_site(&p)), format!("g:{k}"), format!("{what}: {p}")),
+            Ok(tr) => { if tr.fires.iter().any(|f| *f) { acc.nontrivial += 1; } if let Err((sig, d)) = judge(r, &tr, &what) { acc.violation(sig, format!("g:{k}"), d.chars().take(400).collect::<String>()); } }
+        }
     });
     rep.absorb(r);
     // unhooked: same seed => same sequence; all values of the range are produced
@@ -307,6 +329,9 @@ pub fn replay(case: &str) -> Option<String> {
             let tr = Trace { enabled: vec![true; fires.len()], fires, samples_asked: vec![], resets: vec![] };
             judge(r, &tr, "real RNG").err().map(|x| format!("[{}] {}", x.0, x.1)) }
         "s" => in_simulator(rs[p.get(1)?.parse::<usize>().ok()?], p.get(2).and_then(|x| x.parse().ok()).unwrap_or(4)).err().map(|x| format!("[{}] {}", x.0, x.1)),
+        "g" => { let k: u64 = p.get(1)?.parse().ok()?; let big = big_ranges(); let r = *big.get((k / 18) as usize)?; let (c0, c1, ev) = ((k / 6 % 3) as u32, (k / 2 % 3) as u32, k % 2 == 1);
+            let polls = 4 * r.max() + 20; let events = if ev { vec![(r.max() / 2, 3u8)] } else { vec![] };
+            match run_hooked(r, &Plan { choices: vec![c0, c1], events, path: 0 }, polls) { Ok(tr) => judge(r, &tr, "big interval").err().map(|x| format!("[{}] {}", x.0, x.1.chars().take(400).collect::<String>())), Err(p) => Some(p) } }
         "w" => { let k: u8 = p.get(2)?.parse().ok()?; wrapped(rs[p.get(1)?.parse::<usize>().ok()?], k & 1, k & 2 != 0, k & 4 != 0).err().map(|x| format!("[{}] {}", x.0, x.1)) }
         "r" => reset_in_simulator(p.get(1)?.parse().ok()?, p.get(2)?.parse().ok()?, p.get(3)?.parse().ok()?).err().map(|x| format!("[{}] {}", x.0, x.1)),
         _ => None,
